@@ -41,7 +41,7 @@ is_ipv4 (const char *start, const char *end)
             }
         }
         else if (ch == '.') {
-            if (in_byte == 0 || cp[1] == 0) {
+            if (in_byte == 0 || (cp + 1) == end || cp[1] == 0) {
                 /* misplaced dot */
                 return (NO);
             }
